@@ -242,7 +242,7 @@ struct Run{
       char b[160]; snprintf(b,sizeof b,"fixed stepping was configured with %u steps but the stepper was applied %ld times (mode or step count lost?)",sc.nsteps,c.napply);
       c.violation(c.moved_in_run?"C10":evprop,"evolve:step-count",sc.name,b); return; }
     if(numerics && dt>0 && sc.adaptive && !sc.is_sim() && sc.nsteps>=40 && c.napply==(long)sc.nsteps && c.rejections_fired==0 && c.failures_fired==0) c.ctr->add("probe_adaptive_run_with_exactly_nsteps_applies");
-    if(numerics && dt>0 && c.rhs_evals==0){ c.violation(evprop,"evolve:no-integration","switches","numerical terms are enabled but Evolve never evaluated the right-hand side"); return; }
+    if(numerics && dt>0 && t_before+dt!=t_before && c.rhs_evals==0){ c.violation(evprop,"evolve:no-integration","switches","numerical terms are enabled but Evolve never evaluated the right-hand side"); return; }
     sum_dt+=dt; steps_total+=sc.adaptive?c.napply:sc.nsteps;
     // clock
     double t_now=live->Get_t(),t_expect=t_ini+sum_dt;
@@ -800,7 +800,7 @@ struct SolverEngine: Engine{
     Json ops=Json::array();
     double L=9.0;
     auto evolve=[&](double dt){ Json o=Json::object(); o["op"]="evolve"; o["dt"]=dt; ops.push(o); };
-    auto dtgen=[&]{ return r.chance(0.1)?0.0:(r.chance(0.7)?r.uniform(0.05,0.8):r.uniform(0.8,1.6)); };
+    auto dtgen=[&]{ return r.chance(0.1)?0.0:(r.chance(0.03)?1e-17:(r.chance(0.7)?r.uniform(0.05,0.8):r.uniform(0.8,1.6))); };   // 1e-17: a segment so short that t+dt may equal t
     if(prop=="C04"){
       int nev=r.range(1,3);
       for(int i=0;i<nev;i++){ double dt=dtgen(); if(i==0||r.chance(0.4)) ops.push(gen_stepper(r,dt,L)); else if(r.chance(0.3)) ops.push(gen_tweak(r)); evolve(dt);
